@@ -466,6 +466,7 @@ Fixpoint is_assigned (id : pstr) (n : node) : res asg :=
 
 (* for name in parent.args.args: if name.arg == xss_var.id  (parent a FunctionDef) *)
 Definition is_param (parent : node) (id : pstr) : bool :=
+  is_cls "FunctionDef" parent &&
   existsb (fun a => match field "arg" a with NId s => pstr_eqb s id | _ => false end)
           (field_list "args" (field "args" parent)).
 
@@ -520,7 +521,7 @@ Section XssStep.
               else Ok false
           | AList [] => xss_loop id until rest secure
           | AList l =>
-              do ok <- xss_all (node_line st) l;;
+              do ok <- xss_all until l;;
               if ok then xss_loop id until rest true else Ok false
           end
     end.
